@@ -238,4 +238,315 @@ theorem fin_roundtrip_grid {env : Env} {c : Consts} {d : FinDom} {r : FinRange} 
       rw [clipR_id g1 g2, add_sub_cancel_right, mul_div_cancel_right₀ _ hs]
     refine fin_roundtrip_near hmk heps heps2 hs hk hy ?_ ?_ <;> rw [hq] <;> linarith
 
+theorem fin_lowInt_lin (env : Env) (d : FinDom) (hl : d.log = false) : d.lowInt env = d.lower := by
+  simp [FinDom.lowInt, hl]
+
+theorem fin_upInt_lin (env : Env) (d : FinDom) (hl : d.log = false) : d.upInt env = d.upper := by
+  simp [FinDom.upInt, hl]
+
+/-- linear grid: the clip of `_map_from_int` is the identity on listed indices -/
+theorem fin_valuePre_lin (env : Env) (d : FinDom) (hok : d.ok = true) (hl : d.log = false) {k : ℕ}
+    (hk : k < d.size) :
+    d.valuePre env k = (k : ℚ) * d.step env + d.lower ∧ d.lower ≤ d.valuePre env k ∧
+      d.valuePre env k ≤ d.upper := by
+  obtain ⟨hle, _, _⟩ := fin_ok hok
+  have hL := fin_lowInt_lin env d hl
+  have hU := fin_upInt_lin env d hl
+  obtain ⟨_, g1, g2⟩ := fin_grid_range env d (by rw [hL, hU]; exact hle) hk
+  rw [hL] at g1 g2
+  rw [hU] at g2
+  have hv : d.valuePre env k = (k : ℚ) * d.step env + d.lower := by
+    unfold FinDom.valuePre
+    simp only [hl, hL, Bool.false_eq_true, if_false]
+    exact clipR_id g1 g2
+  rw [hv]
+  exact ⟨rfl, g1, g2⟩
+
+/-- **round trip, linear grid of floats**: `decode (encode v) = v` for every listed value -/
+theorem fin_roundtrip_lin {env : Env} {c : Consts} {d : FinDom} {r : FinRange} (hok : d.ok = true)
+    (hmk : mkFin env c d.lower d.upper d.size (if d.log then .log else .lin) d.castInt = .ok r)
+    (hl : d.log = false) (_hc : d.castInt = false) (heps : 0 ≤ c.eps) (heps2 : c.eps ≤ 1 / 2)
+    {k : ℕ} (hk : k < d.size) :
+    ∃ x, r.encode env c (d.valuePre env k) = .ok x ∧ r.decode env c x = .ok (d.valueAt env k) := by
+  obtain ⟨hle, _, _⟩ := fin_ok hok
+  have hL := fin_lowInt_lin env d hl
+  have hU := fin_upInt_lin env d hl
+  obtain ⟨_, _, _, _, _, _, _, h8, _⟩ := finrange_fields hmk
+  have hsc : r.scale = .lin := by rw [h8, hl]; rfl
+  refine fin_roundtrip_grid hok hmk heps heps2 (by rw [hL, hU]; exact hle) hk ?_
+  rw [hsc, (fin_valuePre_lin env d hok hl hk).1, hL]
+  rfl
+
+/-- **round trip, logarithmic grid of floats**, under the properties of `log` / `exp` the abstract
+scaling must have on the internal interval: `log (exp t) = t`, `log lower ≤ log upper`, and
+`exp t ∈ [lower, upper]` (so that the clip of `_map_from_int` is the identity).
+(`0 < exp t` follows from `0 < lower ≤ exp t`.) -/
+theorem fin_roundtrip_log {env : Env} {c : Consts} {d : FinDom} {r : FinRange} (hok : d.ok = true)
+    (hmk : mkFin env c d.lower d.upper d.size (if d.log then .log else .lin) d.castInt = .ok r)
+    (hl : d.log = true) (_hc : d.castInt = false) (heps : 0 ≤ c.eps) (heps2 : c.eps ≤ 1 / 2)
+    (hinv1 : ∀ t, d.lowInt env ≤ t → t ≤ d.upInt env → env.log.toInt (env.log.fromInt t) = t)
+    (hmono : d.lowInt env ≤ d.upInt env)
+    (hrange : ∀ t, d.lowInt env ≤ t → t ≤ d.upInt env →
+      d.lower ≤ env.log.fromInt t ∧ env.log.fromInt t ≤ d.upper)
+    {k : ℕ} (hk : k < d.size) :
+    ∃ x, r.encode env c (d.valuePre env k) = .ok x ∧ r.decode env c x = .ok (d.valueAt env k) := by
+  obtain ⟨_, _, hpos⟩ := fin_ok hok
+  obtain ⟨_, _, _, _, _, _, _, h8, _⟩ := finrange_fields hmk
+  have hsc : r.scale = .log := by rw [h8, hl]; rfl
+  obtain ⟨_, g1, g2⟩ := fin_grid_range env d hmono hk
+  obtain ⟨r1, r2⟩ := hrange _ g1 g2
+  have hv : d.valuePre env k = env.log.fromInt ((k : ℚ) * d.step env + d.lowInt env) := by
+    unfold FinDom.valuePre
+    simp only [hl, if_true]
+    exact clipR_id r1 r2
+  refine fin_roundtrip_grid hok hmk heps heps2 hmono hk ?_
+  have hp : 0 < env.log.fromInt ((k : ℚ) * d.step env + d.lowInt env) :=
+    lt_of_lt_of_le (hpos hl) r1
+  rw [hsc, hv]
+  simp only [Env.toInternal]
+  rw [if_pos hp, hinv1 _ g1 g2]
+
+/-- **`cast` is the identity on listed values** (linear grid of floats) -/
+theorem fin_cast_idem_lin (env : Env) (d : FinDom) (hok : d.ok = true) (hl : d.log = false)
+    (_hc : d.castInt = false) {k : ℕ} (hk : k < d.size) :
+    d.cast env (.flt (d.valuePre env k)) = .ok (d.valueAt env k) := by
+  obtain ⟨hv, v1, v2⟩ := fin_valuePre_lin env d hok hl hk
+  have hL := fin_lowInt_lin env d hl
+  have hm : d.valueAt env (d.mapToInt env (d.valuePre env k)) = d.valueAt env k := by
+    by_cases hs : d.step env = 0
+    · rw [fin_valueAt_step0 env d hs k, fin_valueAt_step0 env d hs (d.mapToInt env _)]
+    · have hi : d.indexPre env (d.valuePre env k) = (((k : ℕ) : ℤ) : ℚ) := by
+        unfold FinDom.indexPre
+        simp only [hl, hL, Bool.false_eq_true, if_false]
+        rw [clipR_id v1 v2, hv, add_sub_cancel_right, mul_div_cancel_right₀ _ hs, Int.cast_natCast]
+      unfold FinDom.mapToInt
+      rw [if_neg hs, hi, rhe_int, clipI_id (by omega) (by omega), Int.toNat_natCast]
+  unfold FinDom.cast
+  simp only [Val.num?]
+  rw [fin_values_getElem env d _ (fin_mapToInt_lt env d hok _), hm]
+
+/-- **round trip, linear grid cast to integers** — partial: restricted to spacing `1 < step`, so
+that rounding a grid point to an integer cannot move it to another grid index.
+(The statement without `hstep` is `fin_roundtrip_castint_lin` below.) -/
+theorem fin_roundtrip_castint_partial {env : Env} {c : Consts} {d : FinDom} {r : FinRange}
+    (hok : d.ok = true)
+    (hmk : mkFin env c d.lower d.upper d.size (if d.log then .log else .lin) d.castInt = .ok r)
+    (hl : d.log = false) (_hc : d.castInt = true) (heps : 0 ≤ c.eps) (heps2 : c.eps ≤ 1 / 2)
+    (hstep : 1 < d.step env) {k : ℕ} (hk : k < d.size) :
+    ∃ x, r.encode env c ((roundHalfEven (d.valuePre env k) : ℤ) : ℚ) = .ok x ∧
+      r.decode env c x = .ok (d.valueAt env k) := by
+  obtain ⟨hv, v1, v2⟩ := fin_valuePre_lin env d hok hl hk
+  have hL := fin_lowInt_lin env d hl
+  have hU := fin_upInt_lin env d hl
+  obtain ⟨_, _, _, _, _, _, _, h8, _⟩ := finrange_fields hmk
+  have hsc : r.scale = .lin := by rw [h8, hl]; rfl
+  obtain ⟨a1, a2⟩ := rhe_abs (d.valuePre env k)
+  have hspos : 0 < d.step env := by linarith
+  generalize ((roundHalfEven (d.valuePre env k) : ℤ) : ℚ) = y at a1 a2 ⊢
+  have hw : d.valuePre env k - 1 / 2 ≤ clipR y d.lower d.upper ∧
+      clipR y d.lower d.upper ≤ d.valuePre env k + 1 / 2 := by
+    unfold clipR
+    dsimp only
+    split_ifs <;> constructor <;> linarith
+  have hy : env.toInternal r.scale y = .ok y := by rw [hsc]; rfl
+  refine fin_roundtrip_near hmk heps heps2 (ne_of_gt hspos) hk hy ?_ ?_
+  · rw [hL, hU, lt_div_iff₀ hspos]
+    linarith [hw.1]
+  · rw [hL, hU, div_lt_iff₀ hspos]
+    linarith [hw.2]
+
+/-! ### rounding facts used for `cast_int` grids -/
+
+theorem rhe_half (m : ℤ) : roundHalfEven ((m : ℚ) + 1 / 2) = if m % 2 = 0 then m else m + 1 := by
+  have hf : ⌊(m : ℚ) + 1 / 2⌋ = m := by
+    rw [Int.floor_eq_iff]; constructor <;> linarith
+  have key : roundHalfEven ((m : ℚ) + 1 / 2) =
+      (if (m : ℚ) + 1 / 2 - (⌊(m : ℚ) + 1 / 2⌋ : ℚ) < 1 / 2 then ⌊(m : ℚ) + 1 / 2⌋
+      else if 1 / 2 < (m : ℚ) + 1 / 2 - (⌊(m : ℚ) + 1 / 2⌋ : ℚ) then ⌊(m : ℚ) + 1 / 2⌋ + 1
+      else if ⌊(m : ℚ) + 1 / 2⌋ % 2 = 0 then ⌊(m : ℚ) + 1 / 2⌋ else ⌊(m : ℚ) + 1 / 2⌋ + 1) := rfl
+  rw [key, hf]
+  have e : (m : ℚ) + 1 / 2 - (m : ℚ) = 1 / 2 := by ring
+  rw [e, if_neg (lt_irrefl _), if_neg (lt_irrefl _)]
+
+/-- a tie that is rounded to `w` shows `w` is even -/
+theorem rhe_tie_even {a : ℚ} {w : ℤ} (ha : roundHalfEven a = w)
+    (h : a = (w : ℚ) + 1 / 2 ∨ a = (w : ℚ) - 1 / 2) : w % 2 = 0 := by
+  rcases h with h | h
+  · rw [h, rhe_half] at ha
+    split at ha <;> omega
+  · have e : (w : ℚ) - 1 / 2 = ((w - 1 : ℤ) : ℚ) + 1 / 2 := by push_cast; ring
+    rw [h, e, rhe_half] at ha
+    split at ha <;> omega
+
+theorem rhe_even_tie {b : ℚ} {w : ℤ} (hev : w % 2 = 0)
+    (h : b = (w : ℚ) + 1 / 2 ∨ b = (w : ℚ) - 1 / 2) : roundHalfEven b = w := by
+  rcases h with h | h
+  · rw [h, rhe_half, if_pos hev]
+  · have e : (w : ℚ) - 1 / 2 = ((w - 1 : ℤ) : ℚ) + 1 / 2 := by push_cast; ring
+    rw [h, e, rhe_half, if_neg (by omega)]
+    omega
+
+/-- a number at most as far from the integer `w` as a number that rounds to `w` rounds to `w` -/
+theorem rhe_closer {a b : ℚ} {w : ℤ} (ha : roundHalfEven a = w) (h : |b - w| ≤ |a - w|) :
+    roundHalfEven b = w := by
+  obtain ⟨a1, a2⟩ := rhe_abs a
+  rw [ha] at a1 a2
+  have haw : |a - w| ≤ 1 / 2 := abs_le.mpr ⟨by linarith, by linarith⟩
+  obtain ⟨b1, b2⟩ := abs_le.mp (le_trans h haw)
+  by_cases h1 : (w : ℚ) - 1 / 2 < b
+  · by_cases h2 : b < (w : ℚ) + 1 / 2
+    · exact le_antisymm (rhe_le h2) (rhe_ge h1)
+    · have hb : b = (w : ℚ) + 1 / 2 := by linarith
+      have : (1 : ℚ) / 2 ≤ |a - w| := by
+        refine le_trans ?_ h
+        have e : (w : ℚ) + 1 / 2 - w = 1 / 2 := by ring
+        rw [hb, e, abs_of_pos (by norm_num)]
+      rcases le_abs'.mp this with h3 | h3
+      · exact rhe_even_tie (rhe_tie_even ha (Or.inr (by linarith))) (Or.inl hb)
+      · exact rhe_even_tie (rhe_tie_even ha (Or.inl (by linarith))) (Or.inl hb)
+  · have hb : b = (w : ℚ) - 1 / 2 := by linarith
+    have : (1 : ℚ) / 2 ≤ |a - w| := by
+      refine le_trans ?_ h
+      have e : (w : ℚ) - 1 / 2 - w = -(1 / 2) := by ring
+      rw [hb, e, abs_neg, abs_of_pos (by norm_num)]
+    rcases le_abs'.mp this with h3 | h3
+    · exact rhe_even_tie (rhe_tie_even ha (Or.inr (by linarith))) (Or.inr hb)
+    · exact rhe_even_tie (rhe_tie_even ha (Or.inl (by linarith))) (Or.inr hb)
+
+/-- `round q` is a nearest integer to `q` -/
+theorem rhe_nearest (q : ℚ) (k : ℤ) : |q - (roundHalfEven q : ℚ)| ≤ |q - (k : ℚ)| := by
+  obtain ⟨a1, a2⟩ := rhe_abs q
+  rcases lt_trichotomy k (roundHalfEven q) with h | h | h
+  · have h' : (k : ℚ) + 1 ≤ (roundHalfEven q : ℚ) := by exact_mod_cast h
+    have := le_abs_self (q - (k : ℚ))
+    exact abs_le.mpr ⟨by linarith, by linarith⟩
+  · rw [h]
+  · have h' : (roundHalfEven q : ℚ) + 1 ≤ (k : ℚ) := by exact_mod_cast h
+    have := neg_abs_le (q - (k : ℚ))
+    exact abs_le.mpr ⟨by linarith, by linarith⟩
+
+theorem clip_closer {w lo hi vj vk : ℚ} (hj : lo ≤ vj ∧ vj ≤ hi) (hk : lo ≤ vk ∧ vk ≤ hi)
+    (h : |clipR w lo hi - vj| ≤ |clipR w lo hi - vk|) : |vj - w| ≤ |vk - w| := by
+  unfold clipR at h
+  dsimp only at h
+  split_ifs at h with h1 h2 h3
+  · linarith [hj.1, hj.2]
+  · rw [abs_of_nonpos (by linarith [hj.1] : lo - vj ≤ 0),
+      abs_of_nonpos (by linarith [hk.1] : lo - vk ≤ 0)] at h
+    rw [abs_of_nonneg (by linarith [hj.1] : 0 ≤ vj - w), abs_of_nonneg (by linarith [hk.1] : 0 ≤ vk - w)]
+    linarith
+  · rw [abs_of_nonneg (by linarith [hj.2] : 0 ≤ hi - vj),
+      abs_of_nonneg (by linarith [hk.2] : 0 ≤ hi - vk)] at h
+    rw [abs_of_nonpos (by linarith [hj.2] : vj - w ≤ 0), abs_of_nonpos (by linarith [hk.2] : vk - w ≤ 0)]
+    linarith
+  · rw [abs_sub_comm vj w, abs_sub_comm vk w]; exact h
+
+theorem fin_step_mul (env : Env) (d : FinDom) (h : 1 < d.size) :
+    ((d.size - 1 : ℕ) : ℚ) * d.step env = d.upInt env - d.lowInt env := by
+  have hn : (0 : ℚ) < ((d.size - 1 : ℕ) : ℚ) := by
+    have : 0 < d.size - 1 := by omega
+    exact_mod_cast this
+  unfold FinDom.step
+  rw [if_pos h]
+  field_simp
+
+/-- **round trip, linear grid cast to integers** (full statement, no restriction on the spacing):
+encoding the integer `round(v_k)` and decoding returns `round(v_k)`.  The index found by the
+encoder may differ from `k`, but its value rounds to the same integer (ties included: a tie
+rounded to `w` makes `w` even, and then both `w ± 1/2` round to `w`). -/
+theorem fin_roundtrip_castint_lin {env : Env} {c : Consts} {d : FinDom} {r : FinRange}
+    (hok : d.ok = true)
+    (hmk : mkFin env c d.lower d.upper d.size (if d.log then .log else .lin) d.castInt = .ok r)
+    (hl : d.log = false) (hc : d.castInt = true) (heps : 0 ≤ c.eps) (heps2 : c.eps ≤ 1 / 2)
+    {k : ℕ} (hk : k < d.size) :
+    ∃ x, r.encode env c ((roundHalfEven (d.valuePre env k) : ℤ) : ℚ) = .ok x ∧
+      r.decode env c x = .ok (d.valueAt env k) := by
+  by_cases hs : d.step env = 0
+  · exact fin_roundtrip_step0 hok hmk heps heps2 hs _ k
+  obtain ⟨hle, _, _⟩ := fin_ok hok
+  obtain ⟨hv, v1, v2⟩ := fin_valuePre_lin env d hok hl hk
+  have hL := fin_lowInt_lin env d hl
+  have hU := fin_upInt_lin env d hl
+  obtain ⟨h1, h2, h3, _, _, _, _, h8, _⟩ := finrange_fields hmk
+  have hsc : r.scale = .lin := by rw [h8, hl]; rfl
+  have hs0 := (fin_grid_range env d (by rw [hL, hU]; exact hle) hk).1
+  have hspos : 0 < d.step env := lt_of_le_of_ne hs0 (Ne.symm hs)
+  have hsize : 1 < d.size := by
+    by_contra h
+    apply hs
+    unfold FinDom.step
+    rw [if_neg h]
+  have hmul := fin_step_mul env d hsize
+  rw [hL, hU] at hmul
+  generalize hw : roundHalfEven (d.valuePre env k) = w
+  obtain ⟨c1, c2⟩ := clipR_mem (x := (w : ℚ)) hle
+  generalize hw' : clipR (w : ℚ) d.lower d.upper = w' at c1 c2
+  have hq0 : 0 ≤ (w' - d.lower) / d.step env := div_nonneg (by linarith) hs0
+  have hq1 : (w' - d.lower) / d.step env ≤ ((d.size - 1 : ℕ) : ℚ) := by
+    rw [div_le_iff₀ hspos, hmul]; linarith
+  have hqs : (w' - d.lower) / d.step env * d.step env = w' - d.lower := div_mul_cancel₀ _ hs
+  have near := rhe_nearest ((w' - d.lower) / d.step env) (k : ℤ)
+  generalize hq : (w' - d.lower) / d.step env = q at hq0 hq1 hqs near
+  have hj0 : 0 ≤ roundHalfEven q := rhe_ge_of_le (k := 0) (by simpa using hq0)
+  have hj1 : roundHalfEven q ≤ ((d.size - 1 : ℕ) : ℤ) := rhe_le_of_le (by exact_mod_cast hq1)
+  have hjlt : (roundHalfEven q).toNat < d.size := by omega
+  have hjn : (((roundHalfEven q).toNat : ℕ) : ℤ) = roundHalfEven q := Int.toNat_of_nonneg hj0
+  have hm : r.mapToInt env (w : ℚ) = .ok (((roundHalfEven q).toNat : ℕ) : ℤ) := by
+    unfold FinRange.mapToInt FinRange.indexPre
+    rw [h3, if_neg hs, hsc, h1, h2, hL, hU, hjn]
+    simp only [Env.toInternal]
+    rw [hw', hq]
+  obtain ⟨x, e1, e2⟩ := fin_roundtrip_of_mapToInt hmk heps heps2 hjlt hm
+  refine ⟨x, e1, ?_⟩
+  rw [e2]
+  obtain ⟨hvj, vj1, vj2⟩ := fin_valuePre_lin env d hok hl hjlt
+  have hJ : (((roundHalfEven q).toNat : ℕ) : ℚ) = ((roundHalfEven q : ℤ) : ℚ) := by
+    exact_mod_cast hjn
+  have key : roundHalfEven (d.valuePre env (roundHalfEven q).toNat) = w := by
+    apply rhe_closer hw
+    apply clip_closer ⟨vj1, vj2⟩ ⟨v1, v2⟩
+    rw [hw']
+    have ej : w' - d.valuePre env (roundHalfEven q).toNat
+        = (q - ((roundHalfEven q : ℤ) : ℚ)) * d.step env := by
+      rw [hvj, hJ, sub_mul, hqs]; ring
+    have ek : w' - d.valuePre env k = (q - ((k : ℤ) : ℚ)) * d.step env := by
+      rw [hv, sub_mul, hqs]; push_cast; ring
+    rw [ej, ek, abs_mul, abs_mul, abs_of_pos hspos]
+    exact mul_le_mul_of_nonneg_right near hs0
+  unfold FinDom.valueAt
+  rw [hc, if_pos rfl, if_pos rfl, key, hw]
+
+/-! ### the hypotheses are satisfiable (identity scaling standing in for `log`/`exp`) -/
+
+private def exEnv : Env := ⟨⟨id, id⟩, ⟨id, id⟩, ⟨id, id⟩⟩
+private def exC : Consts := ⟨1 / 100000000, 499 / 1000, 1 / 100⟩
+/-- `finrange(0.1, 1.0, 10, cast_int=True)`: spacing `1/10`, listed values `0,0,0,0,0,1,1,1,1,1` -/
+private def exD : FinDom := ⟨1 / 10, 1, 10, false, true⟩
+private def exL : FinDom := ⟨1, 8, 4, true, false⟩
+
+example : (mkFin exEnv exC exD.lower exD.upper exD.size (if exD.log then .log else .lin)
+    exD.castInt).isOk = true := by decide +kernel
+
+example : exD.values exEnv
+    = [.int 0, .int 0, .int 0, .int 0, .int 0, .int 1, .int 1, .int 1, .int 1, .int 1] := by
+  decide +kernel
+
+example (r : FinRange)
+    (hmk : mkFin exEnv exC exD.lower exD.upper exD.size (if exD.log then .log else .lin)
+      exD.castInt = .ok r) (k : ℕ) (hk : k < 10) :
+    ∃ x, r.encode exEnv exC ((roundHalfEven (exD.valuePre exEnv k) : ℤ) : ℚ) = .ok x ∧
+      r.decode exEnv exC x = .ok (exD.valueAt exEnv k) :=
+  fin_roundtrip_castint_lin (by decide +kernel) hmk rfl rfl (by norm_num [exC]) (by norm_num [exC]) hk
+
+example : (mkFin exEnv exC exL.lower exL.upper exL.size (if exL.log then .log else .lin)
+    exL.castInt).isOk = true := by decide +kernel
+
+example (r : FinRange)
+    (hmk : mkFin exEnv exC exL.lower exL.upper exL.size (if exL.log then .log else .lin)
+      exL.castInt = .ok r) (k : ℕ) (hk : k < 4) :
+    ∃ x, r.encode exEnv exC (exL.valuePre exEnv k) = .ok x ∧
+      r.decode exEnv exC x = .ok (exL.valueAt exEnv k) :=
+  fin_roundtrip_log (by decide +kernel) hmk rfl rfl (by norm_num [exC]) (by norm_num [exC])
+    (fun _ _ _ => rfl) (by decide +kernel) (fun _ h1 h2 => ⟨h1, h2⟩) hk
+
 end SyneTune.Dom
